@@ -63,6 +63,7 @@ def run(ctx):
     ctx.samples = tc.sample(progs, 1) + tc.sample(hm, 1) + tc.sample(rnd, 1)
     ctx.distinct = tc.distinct(programs)
     tc.judge(ctx, programs, "c12")
+    vlib.run_and_judge(ctx, rnd, "Trace_Tables.cfg", "Trace_Tables.tla", "c12chk", profile="checked")
     return vlib.finish(ctx, rule="SLIT: all assignment sequences to the depth bound over all 9 cells of a 3x3 matrix x 2 values "
                        "(MC_Tables) + random shapes to 16x16/40 localities; HMAT: all shapes 1x1..3x3 x all assignment sequences "
                        "(length <= 2 quick / 3 thorough) + random shapes incl. single row/column; predicate: matrix region of the "
